@@ -276,3 +276,68 @@ func extrasProto(c *hx.Ctx, ty uint64, data []byte) ([]byte, string) {
 		return cat(pbVarint(1, ty), pbBytes(2, data)), "extras-none"
 	}
 }
+
+// exactCap returns a copy of b whose capacity equals its length; spareCap a
+// sub-slice (same content) of a larger buffer whose spare capacity is filled
+// with the pattern 0xA5: a decoder that reads past len(b) shows pattern bytes
+// in its result, one that slices past len(b) panics on the exact copy.
+func exactCap(b []byte) []byte {
+	e := make([]byte, len(b))
+	copy(e, b)
+	return e
+}
+
+func spareCap(b []byte) []byte {
+	buf := make([]byte, len(b)+96)
+	for i := range buf {
+		buf[i] = 0xA5
+	}
+	copy(buf, b)
+	return buf[:len(b)]
+}
+
+// spareIntact reports whether the spare capacity of a spareCap slice still holds the pattern.
+func spareIntact(b []byte) bool {
+	full := b[:cap(b)]
+	for _, x := range full[len(b):] {
+		if x != 0xA5 {
+			return false
+		}
+	}
+	return true
+}
+
+type variant struct {
+	b    []byte
+	kind string
+}
+
+// truncations: every proper prefix of enc (step > 1 thins the interior but
+// keeps the first and last 6 cuts), each as exact-capacity copy and as a
+// spare-capacity sub-slice, plus enc followed by trailing bytes.
+func truncations(c *hx.Ctx, enc []byte, step int) []variant {
+	var out []variant
+	for n := 0; n < len(enc); n++ {
+		if step > 1 && n >= 6 && n < len(enc)-6 && n%step != 0 {
+			continue
+		}
+		out = append(out, variant{exactCap(enc[:n]), "prefix-exact"}, variant{spareCap(enc[:n]), "prefix-spare"})
+	}
+	out = append(out, variant{spareCap(enc), "complete-spare"})
+	for _, t := range [][]byte{{0x00}, {0xA5}, c.RandBytes(1 + c.Rng.Intn(3)), {0x18, 0x01}, enc[:len(enc)/2]} {
+		out = append(out, variant{exactCap(cat(enc, t)), "trailing"})
+	}
+	return out
+}
+
+// textCuts: every proper prefix of a text (thinned like truncations) and the text with one trailing character.
+func textCuts(s string, step int) []string {
+	var out []string
+	for n := 0; n < len(s); n++ {
+		if step > 1 && n >= 6 && n < len(s)-6 && n%step != 0 {
+			continue
+		}
+		out = append(out, s[:n])
+	}
+	return append(out, s+"1", s+"z", s+"\n", s+"=")
+}
